@@ -1,5 +1,6 @@
 import Labella.Proofs.LayoutSep
 import Labella.Model.LayoutSpec
+import Labella.Props.C01
 /-! # C02 — labels are displaced as little as possible (least-squares optimal placement) -/
 namespace Labella.C02
 open Labella Labella.Chain Labella.Layout
@@ -47,5 +48,27 @@ theorem removeOverlap_instance_ok (o : ROpts) (its : List LItem) (h : its ≠ []
 
 -- non-vacuity: three labels pushed apart, the middle one keeps its place by symmetry
 example : solve 0 [⟨1, 0⟩, ⟨1, 1⟩, ⟨1, 2⟩] [3, 3] = [-2, 1, 4] := by decide +kernel
+
+
+/-! ### end to end -/
+open Labella.C01 (layerView solvedItems) in
+/-- **C02 end to end** (proved in `Props/C01.lean` next to the C01 end-to-end theorem): in every layer `j` of every layout the reported positions are
+the roundings of the solver's positions, item by item within 1/2 of them, and the solver's placement is the least-squares optimum of the layer's targets
+and gaps, walls included: `cost x + Σ wᵢ (zᵢ − xᵢ)² ≤ cost z` for EVERY placement `z` that keeps the gaps.  Through `C01.engine_view_pure` the same holds
+for what the stateful engine reports after any history. -/
+theorem layout_optimal_end_to_end (o : FOpts) (labels : List Label) (j : Nat) :
+    (layerView o labels (compute o labels) j).map (·.2)
+        = (solveSorted o.toR (solvedItems o labels j)).map (fun x => ((roundHalfEven x : Int) : ℚ)) ∧
+    List.Forall₂ (fun (p : LItem × ℚ) x => |p.2 - x| ≤ 1 / 2)
+        (layerView o labels (compute o labels) j) (solveSorted o.toR (solvedItems o labels j)) ∧
+    (solvedItems o labels j ≠ [] →
+      ∀ zs : List ℚ, zs.length = (chainVars o.toR (solvedItems o labels j)).length →
+        SepBy 0 (chainGaps o.toR (solvedItems o labels j)) zs →
+        cost (chainVars o.toR (solvedItems o labels j))
+            (solve Layout.eps (chainVars o.toR (solvedItems o labels j)) (chainGaps o.toR (solvedItems o labels j)))
+          + wdist (chainVars o.toR (solvedItems o labels j))
+              (solve Layout.eps (chainVars o.toR (solvedItems o labels j)) (chainGaps o.toR (solvedItems o labels j))) zs
+          ≤ cost (chainVars o.toR (solvedItems o labels j)) zs) :=
+  C01.compute_optimal o labels j
 
 end Labella.C02
